@@ -12,8 +12,21 @@ def missName (var : String) : String := (missingMap.lookup var).getD ""
 
 def parseCfgOf (l : List Nat) : ParseCfg := ⟨l.getD 0 0, l.getD 1 0, l.getD 2 0⟩
 
-/-- configuration of the model as extracted from the current source -/
-def cfg : Cfg :=
+/-- the multiplier of a /proc/vmstat counter as the source writes it: the product of its constant
+    factors, times the page size for a factor named `PAGESIZE`; any other non-constant factor is
+    not something the model can follow (0: the obligations fail, the correspondence disagrees) -/
+def scaleAt (const : Nat) (names : List String) (ps : Nat) : Nat :=
+  if names == [] then const
+  else if names == ["PAGESIZE"] then const * ps
+  else 0
+
+/-- does swap_memory() scale BOTH page counters by the real page size (`* PAGESIZE`)?
+    `false` for the code as found (`* 4 * 1024`); `true` once fixes/C08-swap-pagesize.diff is in -/
+def swapPages : Bool := sinFactorNames == ["PAGESIZE"] && soutFactorNames == ["PAGESIZE"]
+
+/-- configuration of the model as extracted from the current source, for a process whose
+    `PAGESIZE` (module constant of `_pslinux`, `os.sysconf("SC_PAGE_SIZE")`) is `ps` -/
+def cfgAt (ps : Nat) : Cfg :=
   { vmParse := parseCfgOf vmParse
     kMemTotal := keyOf vmKeys "total" 0
     kMemFree := keyOf vmKeys "free" 0
@@ -53,10 +66,10 @@ def cfg : Cfg :=
     swRound := swRound
     sinPrefix := sinPrefix
     sinIdx := sinIdxFactor.getD 0 0
-    sinFactor := sinIdxFactor.getD 1 0
+    sinFactor := scaleAt (sinIdxFactor.getD 1 0) sinFactorNames ps
     soutPrefix := soutPrefix
     soutIdx := soutIdxFactor.getD 0 0
-    soutFactor := soutIdxFactor.getD 1 0
+    soutFactor := scaleAt (soutIdxFactor.getD 1 0) soutFactorNames ps
     pctScale := pctScale
     svmemLayout := svmemFields.zip svmemArgs
     sswapLayout := sswapFields.zip sswapArgs
@@ -67,6 +80,10 @@ def cfg : Cfg :=
     primesTotalPhymem := phymemPrimed != ""
     phymemField := phymemPrimed
     memPercentUsesCache := memPercentTotalExpr == "_TOTAL_PHYMEM or virtual_memory().total" }
+
+/-- the configuration on a 4 KiB-page system (what every theorem that does not mention the page
+    size of the swap counters is stated for; virtual_memory() takes its page size as an argument) -/
+def cfg : Cfg := cfgAt 4096
 
 /-- shape facts that are not parameters of the model: the number of keys per variable (an extra
     or a dropped key changes the algorithm) and `watermark_low *= PAGESIZE` -/
@@ -83,5 +100,48 @@ def shapeOk : Bool :=
   && svmemFields.length == svmemArgs.length && sswapFields.length == sswapArgs.length
   -- every slot of the native tuple is an unsigned C integer (`k` unsigned long, `I` unsigned int)
   && sysinfoCFormat == "(kkkkkkI)" && sysinfoTimesUnit == ["total", "free"]
+  -- the two page counters are scaled the same way: by the constant 4096 (code as found) or by
+  -- PAGESIZE alone (repaired); both are read from `line.split(b' ')`
+  && ((sinFactorNames == [] && soutFactorNames == [] && sinIdxFactor.getD 1 0 == 4096
+        && soutIdxFactor.getD 1 0 == 4096)
+      || (swapPages && sinIdxFactor.getD 1 0 == 1 && soutIdxFactor.getD 1 0 == 1))
+  && sinSplitExpr == "line.split(b' ')" && soutSplitExpr == "line.split(b' ')"
+
+/-- the statements the model transcribes that no structured fact describes, pinned by their
+    normalised source text (`ast.unparse`; comments and layout do not count): the two meminfo
+    loops, `used`, `cached +=`, the MemAvailable / clamp block, the arguments of usage_percent,
+    the warnings (category RuntimeWarning, texts, was/were, `if missing_fields:`), the zoneinfo
+    loop + the arithmetic of the estimate (`min`, `/ 2`, `int()`), the vmstat `for … else` loop
+    with its `break` condition, the body of usage_percent (`round`), the exception classes caught
+    (`except OSError` around both optional files). Obligation: `cfg_text_good`. -/
+def textOk : Bool :=
+  vmLoopText ==
+      ["fields = line.split()", "mems[fields[0]] = int(fields[1]) * 1024"]
+  && swLoopText ==
+      ["fields = line.split()", "mems[fields[0]] = int(fields[1]) * 1024"]
+  && usedText ==
+      ["used = total - free - cached - buffers", "if used < 0:\n    used = total - free"]
+  && cachedAugText ==
+      ["cached += mems.get(b'SReclaimable:', 0)"]
+  && availText ==
+      ["try:\n    avail = mems[b'MemAvailable:']\nexcept KeyError:\n    avail = calculate_avail_vmem(mems)\nelse:\n    if avail == 0:\n        avail = calculate_avail_vmem(mems)", "if avail < 0:\n    avail = 0\n    missing_fields.append('available')\nelif avail > total:\n    avail = free"]
+  && vmPercentText ==
+      ["percent = usage_percent(total - avail, total, round_=1)"]
+  && vmWarnText ==
+      ["if missing_fields:", "msg = \"{} memory stats couldn't be determined and {} set to 0\".format(', '.join(missing_fields), 'was' if len(missing_fields) == 1 else 'were')", "warnings.warn(msg, RuntimeWarning, stacklevel=2)"]
+  && estimateText ==
+      ["watermark_low = 0", "with f:\n    for line in f:\n        line = line.strip()\n        if line.startswith(b'low'):\n            watermark_low += int(line.split()[1])", "watermark_low *= PAGESIZE", "avail = free - watermark_low", "pagecache = lru_active_file + lru_inactive_file", "pagecache -= min(pagecache / 2, watermark_low)", "avail += pagecache", "avail += slab_reclaimable - min(slab_reclaimable / 2.0, watermark_low)", "return int(avail)"]
+  && swUsedText ==
+      ["used = total - free"]
+  && swPercentText ==
+      ["percent = usage_percent(used, total, round_=1)"]
+  && swWarnText ==
+      ["msg = f\"'sin' and 'sout' swap memory stats couldn't be determined and were set to 0 ({err})\"", "warnings.warn(msg, RuntimeWarning, stacklevel=2)", "msg = \"'sin' and 'sout' swap memory stats couldn't \"", "msg += 'be determined and were set to 0'", "warnings.warn(msg, RuntimeWarning, stacklevel=2)"]
+  && vmstatLoopText ==
+      "for line in f:\n    if line.startswith(b'pswpin'):\n        sin = int(line.split(b' ')[1]) * FACTOR\n    elif line.startswith(b'pswpout'):\n        sout = int(line.split(b' ')[1]) * FACTOR\n    if sin is not None and sout is not None:\n        break\nelse:\n    msg = \"'sin' and 'sout' swap memory stats couldn't \"\n    msg += 'be determined and were set to 0'\n    warnings.warn(msg, RuntimeWarning, stacklevel=2)\n    sin = sout = 0"
+  && usagePercentText ==
+      ["try:\n    ret = float(used) / total * 100\nexcept ZeroDivisionError:\n    return 0.0\nelse:\n    if round_ is not None:\n        ret = round(ret, round_)\n    return ret"]
+  && handlerTypes ==
+      [("calculate_avail_vmem", ["KeyError", "OSError"]), ("virtual_memory", ["KeyError", "KeyError", "KeyError", "KeyError", "KeyError", "KeyError", "KeyError", "KeyError", "KeyError"]), ("swap_memory", ["KeyError", "OSError"])]
 
 end Psutil.C08
